@@ -507,8 +507,10 @@ func init() {
 			c := fwCase{Cfg: cfg(rng.Intn(3) > 0, rng.Intn(2) == 0)}
 			if rng.Intn(4) == 0 {
 				c.Cfg.Inject = map[string]string{}
+				used := map[string]bool{} // one spelling per header: two spellings of one name in a Go map have no defined order
 				for j := 0; j < 1+rng.Intn(3); j++ {
-					if nm := names[rng.Intn(len(names))]; nm != "Te" && nm != "Upgrade" && nm != "Cookie" {
+					if nm := names[rng.Intn(len(names))]; nm != "Te" && nm != "Upgrade" && nm != "Cookie" && !used[nm] {
+						used[nm] = true
 						c.Cfg.Inject[spell(nm)] = "inj-" + vals[rng.Intn(len(vals))]
 					}
 				}
